@@ -326,7 +326,7 @@ class Script:
     """Environment choices of one TdglRun behaviour."""
 
     def __init__(self, cfg, tdts, simdts, flog, probes=0, screening=False, progress=0, prior=None, fault_shape=0,
-                 outname="out.h5", warn_error=False):
+                 outname="out.h5", warn_error=False, pause=None):
         self.cfg = cfg
         self.tdts = list(tdts)
         self.simdts = list(simdts)
@@ -342,6 +342,10 @@ class Script:
         self.outname = outname
         # environment: run with every warning turned into an error (python -W error / pytest -W error)
         self.warn_error = warn_error
+        # pause_on_interrupt (the package default): a KeyboardInterrupt inside the loop asks the user; fault kind
+        # "KIR" is answered "continue", kind "KI" is answered "no" (the ordinary way of cancelling a run).
+        # None: on exactly when the behaviour contains a resume.
+        self.pause = any(f.get("kind") == "KIR" for f in self.flog) if pause is None else bool(pause)
 
     def key(self):
         return (tuple(sorted((k, str(v)) for k, v in self.cfg.items())), tuple(self.tdts), tuple(self.simdts),
@@ -437,7 +441,7 @@ def _replay(tdgl, script, base_tmp=None, sandbox=None, keep=False):
     device = tiny_device(tdgl, script.probes)
     opts = tdgl.SolverOptions(
         solve_time=cfg["solveT"] * TICK, skip_time=cfg["skipT"] * TICK, dt_init=TICK, dt_max=10.0,
-        adaptive=True, save_every=k, progress_interval=script.progress, pause_on_interrupt=False,
+        adaptive=True, save_every=k, progress_interval=script.progress, pause_on_interrupt=script.pause,
         output_file=(requested if cfg["out"] == "path" else None), include_screening=script.screening,
         field_units="mT", current_units="uA",
     )
@@ -459,7 +463,8 @@ def _replay(tdgl, script, base_tmp=None, sandbox=None, keep=False):
     def make_fault(kind):
         """The exception object injected for a fault; errors come in several shapes (with and without
         arguments, builtin and user-defined): a stopped run must be cleaned up whatever the error looks like."""
-        if kind == "KI":
+        st["last_kind"] = kind
+        if kind in ("KI", "KIR"):
             exc = KeyboardInterrupt()
         else:
             shapes = [lambda: Boom("injected fault"), lambda: Boom(), lambda: AssertionError(), lambda: MemoryError(),
@@ -553,7 +558,9 @@ def _replay(tdgl, script, base_tmp=None, sandbox=None, keep=False):
             else:
                 orig_save(self, state, data, running_state)
         except BaseException as e:
-            kind = "KI" if isinstance(e, KeyboardInterrupt) else ("Err" if any(e is x for x in st["injected"]) else "Exc:" + type(e).__name__)
+            injected = any(e is x for x in st["injected"])
+            kind = ((f["kind"] if (injected and f is not None) else "KI") if isinstance(e, KeyboardInterrupt)
+                    else ("Err" if injected else "Exc:" + type(e).__name__))
             ev.update(outcome=kind, at="mid")
             events.append(ev)
             raise
@@ -611,6 +618,20 @@ def _replay(tdgl, script, base_tmp=None, sandbox=None, keep=False):
         wctx.__enter__()
         if script.warn_error:
             _warnings.simplefilter("error")
+        import builtins as _builtins
+        orig_input = _builtins.input
+
+        def _answer(prompt=""):
+            # the user at the prompt: "continue" after a KIR fault, "no" (in several spellings) after a KI fault;
+            # a prompt nobody provoked is answered "no" and recorded (no action of the specification matches it)
+            st["prompts"] = st.get("prompts", 0) + 1
+            kind = st.pop("last_kind", None)
+            if kind == "KIR":
+                return ["y", "Y", "yes", "Yes please"][st["prompts"] % 4]
+            if kind is None:
+                events.append({"ev": "fault", "where": "prompt", "outcome": "unprovoked", "at": "prompt"})
+            return ["n", "", "N", "no", "q"][st["prompts"] % 5]
+        _builtins.input = _answer
         try:
             solver = TDGLSolver(device, opts)
             solver.update = scripted_update
@@ -631,6 +652,7 @@ def _replay(tdgl, script, base_tmp=None, sandbox=None, keep=False):
             wctx.__exit__(None, None, None)
             signal.alarm(0)
             signal.signal(signal.SIGALRM, old_handler)
+            _builtins.input = orig_input
             DH.__enter__, DH.__exit__, DH.save_time_step = orig_enter, orig_exit, orig_save
             DH.save_mesh, _Solution.to_hdf5 = orig_save_mesh, orig_to_hdf5
         if sol is not None:
